@@ -48,6 +48,15 @@ CHECKS = {
  "C34": ("exploration", "differential run-time monitor: independent dependency-graph analysis vs accept/evaluate behaviour over every persistent/session split",
          "held on every generated rule set, split and session style of the run: a predicate on a negative cycle is never answered, stratified sets are always answered, no stratification-preserving registration is refused",
          "trusted: the harness's reachability-based stratifiability test", "3/C34"),
+ "C27": ("exploration", "run-time monitor over generated multi-line programs x 12 non-admin identities: complete dumps of every KG compared before/after each request",
+         "held on every generated program/identity of the run: no KG on which the caller's role is viewer or absent changed or disappeared, no global viewer created a KG, no non-admin created a user",
+         "trusted: the role model stated in src/auth.rs (per-KG role is the authority for data access); dumps through the storage API", "3/C27"),
+ "C28": ("exploration", "exhaustive evaluation of both decision functions over every statement/meta-command variant x role, plus observed execution of every viewer-permitted variant",
+         "exhaustive over all 60 Statement/MetaCommand variants (compile-time exhaustive match + run-time reach check) x 3 KG roles x 3 global roles: both permission relations are monotone, admin-only operations are denied to non-admins, and every viewer-permitted variant leaves the persistent dump unchanged (live and after restart) apart from the listed known finding",
+         "trusted: dump = KG list + facts + rules + schemas; one or more canonical texts per variant", "3/C28"),
+ "C29": ("exploration", "run-time monitor over generated programs naming the internal graph in every position x 12 non-admin identities: _internal dump, canary scan of every returned row, switched_kg and session binding",
+         "held on every generated program/identity of the run: _internal unchanged, no canary or password hash returned, never switched or bound to _internal",
+         "trusted: canaries planted in _internal + stored password hashes identify data read from it", "3/C29"),
 }
 NOT_YET = "monitor not built yet in this round (design in DESIGN.md section 3); not claimed until a check exists"
 
